@@ -62,6 +62,8 @@ def work_contract(job):
         from pyvc import replay as rp
         R = load_registry()
         eng = Engine(repo, R)
+        import contracts.spec as _S
+        eng.ghost_defs = _S.ghost_defs
         c = [x for x in R.all() if x.id == cid][0]
         fi = eng.repo.func(c.key)
         rec.update({'key': c.key, 'sha256': fi.sha256(), 'lines': list(fi.lines()), 'props': list(c.props), 'note': c.note,
@@ -81,6 +83,20 @@ def work_contract(job):
             orec = {'name': o.name, 'kind': o.kind, 'status': d['status'], 'backend': d['backend'], 'seconds': round(d['seconds'], 4),
                     'quantified': d['quantified'], 'path': o.path_id, 'props': props_of_obl(o.name, c.props), 'size': o.size(),
                     'lineno': o.lineno, 'cvc5': d.get('cvc5')}
+            if d['status'] == 'unknown' and d.get('candidate_model') is not None and o.kind in ('post', 'inv_pres', 'inv_entry', 'frame', 'raise', 'pre', 'assert'):
+                # candidate counter-model: believed only if the input it describes makes the real code break the contract
+                try:
+                    w = rp.make_witness(eng, c, o.info['args'], o.info['pre'], d['candidate_model'])
+                    rr = rp.run_witness(eng, c, '*', w, repo, kind='post')
+                    if rr['verdict'] == 'violates':
+                        orec['status'] = 'refuted'
+                        orec['witness'] = w
+                        orec['replay'] = rr
+                        orec['model'] = 'candidate model (quantifiers instantiated, not model-checked); confirmed by replay'
+                    else:
+                        orec['candidate_replay'] = rr
+                except Exception as e:
+                    orec['candidate_replay'] = {'verdict': 'error', 'detail': f'{type(e).__name__}: {e}'}
             if d['status'] == 'refuted' and d['model'] is not None:
                 orec['model'] = str(d['model'])[:3000]
                 if o.kind in ('post', 'raise', 'frame', 'assert', 'safety', 'inv_pres', 'inv_entry', 'pre', 'decreases'):
@@ -95,6 +111,31 @@ def work_contract(job):
                     except Exception as e:
                         orec['replay'] = {'verdict': 'error', 'detail': f'{type(e).__name__}: {e}', 'tb': traceback.format_exc()[-1500:]}
             rec['obls'].append(orec)
+        # ---- run-time cross-check of the contract on the real function (small random inputs) and, for obligations
+        # left open, search for a replayable failing input
+        if not c.opts.get('no_search'):
+            open_ = [o for o in rec['obls'] if o['status'] != 'proved' and not (o.get('replay') or {}).get('verdict') == 'violates']
+            n = (150 if tier == 'quick' else 1500) if open_ else (25 if tier == 'quick' else 300)
+            seed = int(os.environ.get('VERIF_SEED', '0') or 0)
+            w, rr, st = rp.search(eng, c, '*', repo, n=n, seed=seed)
+            rec['cross_check'] = {k: v for k, v in st.items() if k != 'distinct'}
+            rec['cross_check']['distinct'] = st['distinct'] if isinstance(st['distinct'], int) else len(st['distinct'])
+            if w is not None:
+                clause = rr.get('clause', '?')
+                hit = False
+                for o in rec['obls']:
+                    if o['status'] != 'proved' and clause in o['name'] and (o.get('replay') or {}).get('verdict') != 'violates':
+                        o['status'] = 'refuted'
+                        o['witness'] = w
+                        o['replay'] = rr
+                        o['model'] = o.get('model') or 'failing input found by bounded search over small inputs (obligation was not discharged)'
+                        hit = True
+                if not hit:
+                    proved_all = all(o['status'] == 'proved' for o in rec['obls'] if clause in o['name']) and any(clause in o['name'] for o in rec['obls'])
+                    rec['obls'].append({'name': 'runtime:' + clause, 'kind': 'post', 'status': 'refuted', 'backend': 'cpython', 'seconds': 0.0,
+                                        'quantified': False, 'path': '-', 'props': props_of_obl(clause, c.props), 'witness': w, 'replay': rr,
+                                        'contradicts_proof': proved_all,
+                                        'model': 'contract clause fires on the real function for this input'})
     except Exception as e:
         rec['error'] = f'{type(e).__name__}: {e}\n{traceback.format_exc()[-3000:]}'
     rec['wall_s'] = time.time() - t0
@@ -212,7 +253,7 @@ def conclude(a, prop, recs, assumed, R, seed, t0):
         if r.get('kind') == 'contract':
             funcs.append({'contract': r['task'], 'function': r.get('key'), 'sha256': r.get('sha256'), 'lines': r.get('lines'),
                           'paths': r.get('paths'), 'obligations': len([o for o in r['obls'] if prop in o['props']]),
-                          'gen_s': round(r.get('gen_s', 0), 3), 'wall_s': round(r['wall_s'], 3)})
+                          'gen_s': round(r.get('gen_s', 0), 3), 'wall_s': round(r['wall_s'], 3), 'runtime_cross_check': r.get('cross_check')})
             if not r.get('unsupported') and r.get('paths', 0) == 0:
                 errors.append((r['task'], 'zero paths explored'))
         if r.get('kind') == 'bounded' and r.get('bounded') is not None:
@@ -247,6 +288,9 @@ def conclude(a, prop, recs, assumed, R, seed, t0):
                 if kn:
                     known_hit.append((kn[0], {'name': full, 'detail': rp_.get('detail')}))
                     continue
+                if o.get('contradicts_proof'):
+                    errors.append((r['task'], f"clause {o['name']} is proved but fires on the real code: {rp_.get('detail')} (engine or assumption wrong)"))
+                    continue
                 if v == 'violates':
                     violations.append({'task': r['task'], 'name': o['name'], 'kind': o['kind'], 'detail': rp_.get('detail'), 'witness': o.get('witness'),
                                        'model': o.get('model'), 'replayed': True, 'path': o['path']})
@@ -275,6 +319,12 @@ def conclude(a, prop, recs, assumed, R, seed, t0):
         seen.add(key)
         lines.append(f"KNOWN-FINDING: property={prop} {k['what']}")
     vi = 0
+    uniq = {}
+    for v in violations:
+        k = (v['task'], v['name'])
+        if k not in uniq or (v['replayed'] and not uniq[k]['replayed']):
+            uniq[k] = v
+    violations = list(uniq.values())
     for v in violations:
         vi += 1
         fn = os.path.join('replays', f'{prop}_{vi}.json')
